@@ -1135,8 +1135,8 @@ func c12Build(t *testing.T, r *kit.Result, rng *kit.Rand, caseID string, transac
 		switch {
 		case i == 0:
 			parent = w.root
-		case i == 1 && len(w.nss) > 1:
-			parent = w.nss[1] // guarantee a two-level chain under the first (sealable) namespace
+		case (i == 1 || i == 2) && len(w.nss) > 1:
+			parent = w.nss[1] // guarantee a two-level chain and two siblings under the first (sealable) namespace
 		default:
 			cands := []*c12NS{}
 			for _, n := range w.nss {
@@ -1147,6 +1147,22 @@ func c12Build(t *testing.T, r *kit.Result, rng *kit.Rand, caseID string, transac
 			parent = cands[rng.Intn(len(cands))]
 		}
 		name := ""
+		if i == 1 && len(w.nss) > 1 {
+			name = []string{"a", "ab", "a-b"}[rng.Intn(3)]
+		}
+		if i == 2 && len(w.nss) > 2 {
+			name = map[string]string{"a": []string{"ab", "a-b"}[rng.Intn(2)], "ab": "a", "a-b": "a"}[w.nss[2].Name]
+		}
+		// prefer a name that is string-prefix related to a sibling ("a" next to "ab", "a-b")
+		if sib := w.children(parent); name == "" && len(sib) > 0 && rng.Chance(2, 3) {
+			for _, c := range []string{"a", "ab", "a-b"} {
+				for _, sb := range sib {
+					if c != sb.Name && (strings.HasPrefix(c, sb.Name) || strings.HasPrefix(sb.Name, c)) && w.findNS(parent.Path+c+"/") == nil && name == "" {
+						name = c
+					}
+				}
+			}
+		}
 		for tries := 0; tries < 20 && name == ""; tries++ {
 			c := c12NSNames[rng.Intn(len(c12NSNames))]
 			if w.findNS(parent.Path+c+"/") == nil {
@@ -1197,6 +1213,13 @@ func c12Build(t *testing.T, r *kit.Result, rng *kit.Rand, caseID string, transac
 		}
 	}
 	w.sync()
+	for _, a := range w.nss {
+		for _, b := range w.nss {
+			if a != b && a.Parent == b.Parent && a.Parent != nil && strings.HasPrefix(a.Name, b.Name) {
+				w.r.Count("sibling_namespaces_with_prefix_related_names", 1)
+			}
+		}
+	}
 	return w
 }
 
